@@ -76,8 +76,8 @@ type WorldSpec struct {
 	LogLevel       string        `json:"log_level,omitempty"`    // "", error, debug
 	// HandlerMode: requests are served by one long-lived oidcHandler per filter instead of through
 	// ExtAuthZFilter.Check (component level; single-filter worlds without trigger rules only).
-	HandlerMode bool `json:"handler_mode,omitempty"`
-	IdPs           []IdPSpec     `json:"idps"`
+	HandlerMode bool      `json:"handler_mode,omitempty"`
+	IdPs        []IdPSpec `json:"idps"`
 }
 
 type IdPSpec struct {
